@@ -18,6 +18,15 @@ CLAIMED = {
             'KEY clause sits in its key holder, and the target precedes the holder.',
             'DESIGN.md 6/C18', 'Open finding c18_counting_heuristic: the ordering clause is only asserted where the counting heuristic '
             'of the unchanged tree promises it (target holds more counted inline refs, or as many and was added earlier).'),
+    'C03': ('API-built (and one parsed) databases over the cross product of column flags, pk layouts (none / single / composite / pk index '
+            '/ both), 10 default kinds incl. 0, False and the empty string, index options (unique, name, 6 types, single / composite / '
+            'expression subjects), public and non-public schemas for tables and enums, table / column notes, with symbolic names: '
+            'the statements read back by an independent tokenising DDL reader are exactly the expected ones, each once, nothing else.',
+            'DESIGN.md 6/C03', ''),
+    'C04': ('Every reference kind (> < - <>) x single / composite x cross-schema / self reference x inline or not x named or not x '
+            'all 36 update/delete action pairs, plus pairs of references and the three surface forms in parsed documents: exactly one '
+            'correctly directed FOREIGN KEY per reference, inline XOR ALTER TABLE, join table for <>, read back by the DDL reader.',
+            'DESIGN.md 6/C04', ''),
 }
 _PENDING = 'check under construction in this session (harness not yet committed); not claimed until it runs clean on the unchanged tree'
 NOT_APPLICABLE = {f'C{i:02d}': _PENDING for i in range(1, 19) if f'C{i:02d}' not in CLAIMED}
